@@ -243,12 +243,18 @@ pub struct C15Cfg {
     pub max_chunk: usize,
     pub pending_pct: u64,
     pub end: EndMode,
+    /// serde links only: the reading end's `Framed` was used before it became a tarpc transport (a
+    /// greeting line read with another codec, `map_codec`, then `serde_transport::new`), so tarpc
+    /// frames may already sit in its read buffer
+    pub prebuffered: bool,
 }
+
+const GREETING: &[u8] = b"hello tarpc\n";
 
 /// One direction of one link: write a generated sequence at one end, read at the other.
 pub fn c15_case(cfg: &C15Cfg) -> Outcome {
     let mut out = Outcome::default();
-    out.desc = json!({"family": "S-codec", "case": "sequence", "seed": cfg.seed, "link": format!("{:?}", cfg.link), "direction": if cfg.c2s { "client->server" } else { "server->client" }, "messages": cfg.n, "max_chunk": cfg.max_chunk, "pending_pct": cfg.pending_pct, "end": format!("{:?}", cfg.end), "big_bodies": cfg.big});
+    out.desc = json!({"family": "S-codec", "case": "sequence", "seed": cfg.seed, "link": format!("{:?}", cfg.link), "direction": if cfg.c2s { "client->server" } else { "server->client" }, "messages": cfg.n, "max_chunk": cfg.max_chunk, "pending_pct": cfg.pending_pct, "end": format!("{:?}", cfg.end), "big_bodies": cfg.big, "reader_framed_used_before": cfg.prebuffered});
     let mut r = Rng::new(cfg.seed);
     let msgs = if cfg.c2s { gen_c2s(&mut r, cfg.n, cfg.big) } else { gen_s2c(&mut r, cfg.n, cfg.big) };
     let serde = matches!(cfg.link, Link::Json | Link::Bincode);
@@ -339,6 +345,23 @@ pub fn c15_case(cfg: &C15Cfg) -> Outcome {
                 }
             }};
         }
+        // the reading end of a pre-used Framed: read the greeting with LinesCodec, switch the codec,
+        // and only then hand the Framed (with whatever is already buffered) to tarpc
+        macro_rules! lazy_rd {
+            ($io:expr, $codec:expr) => {{
+                let io = $io;
+                Box::pin(
+                    futures::stream::once(async move {
+                        let mut lines = Framed::new(io, tokio_util::codec::LinesCodec::new());
+                        let g = lines.next().await;
+                        assert!(matches!(&g, Some(Ok(l)) if l.as_bytes() == &GREETING[..GREETING.len() - 1]), "harness: greeting not read: {g:?}");
+                        let framed = lines.map_codec(|_| LengthDelimitedCodec::new());
+                        tarpc::serde_transport::new(framed, $codec)
+                    })
+                    .flatten(),
+                )
+            }};
+        }
         let mk_c = |m: &Msg| to_client_message(m);
         let mk_s = |m: &Msg| (to_response(m), None::<Instant>);
         let un_c = |i: ClientMessage<String>| match i {
@@ -377,22 +400,56 @@ pub fn c15_case(cfg: &C15Cfg) -> Outcome {
             }
             (Link::Json, c2s) => {
                 let (a, b) = frag_pipe(cfg.seed, cfg.max_chunk, cfg.pending_pct);
-                let c = tarpc::serde_transport::new(Framed::new(a, LengthDelimitedCodec::new()), tokio_serde::formats::Json::<Response<String>, ClientMessage<String>>::default());
-                let s = tarpc::serde_transport::new(Framed::new(b, LengthDelimitedCodec::new()), tokio_serde::formats::Json::<ClientMessage<String>, Response<String>>::default());
-                if c2s {
-                    run_pair!(c, s, ClientMessage<String>, mk_c, un_c)
+                if cfg.prebuffered {
+                    let (wr, mut rdio) = if c2s { (a, b) } else { (b, a) };
+                    wr.tx_handle().borrow_mut().buf.extend(GREETING.iter());
+                    if cfg.seed & 1 == 0 {
+                        rdio.max_chunk = 1 << 16; // the greeting and the first frames arrive in one read
+                    }
+                    if c2s {
+                        let c = tarpc::serde_transport::new(Framed::new(wr, LengthDelimitedCodec::new()), tokio_serde::formats::Json::<Response<String>, ClientMessage<String>>::default());
+                        let s = lazy_rd!(rdio, tokio_serde::formats::Json::<ClientMessage<String>, Response<String>>::default());
+                        run_pair!(c, s, ClientMessage<String>, mk_c, un_c)
+                    } else {
+                        let s = tarpc::serde_transport::new(Framed::new(wr, LengthDelimitedCodec::new()), tokio_serde::formats::Json::<ClientMessage<String>, Response<String>>::default());
+                        let c = lazy_rd!(rdio, tokio_serde::formats::Json::<Response<String>, ClientMessage<String>>::default());
+                        run_pair!(s, c, Response<String>, mk_s, un_s)
+                    }
                 } else {
-                    run_pair!(s, c, Response<String>, mk_s, un_s)
+                    let c = tarpc::serde_transport::new(Framed::new(a, LengthDelimitedCodec::new()), tokio_serde::formats::Json::<Response<String>, ClientMessage<String>>::default());
+                    let s = tarpc::serde_transport::new(Framed::new(b, LengthDelimitedCodec::new()), tokio_serde::formats::Json::<ClientMessage<String>, Response<String>>::default());
+                    if c2s {
+                        run_pair!(c, s, ClientMessage<String>, mk_c, un_c)
+                    } else {
+                        run_pair!(s, c, Response<String>, mk_s, un_s)
+                    }
                 }
             }
             (Link::Bincode, c2s) => {
                 let (a, b) = frag_pipe(cfg.seed, cfg.max_chunk, cfg.pending_pct);
-                let c = tarpc::serde_transport::new(Framed::new(a, LengthDelimitedCodec::new()), tokio_serde::formats::Bincode::<Response<String>, ClientMessage<String>>::default());
-                let s = tarpc::serde_transport::new(Framed::new(b, LengthDelimitedCodec::new()), tokio_serde::formats::Bincode::<ClientMessage<String>, Response<String>>::default());
-                if c2s {
-                    run_pair!(c, s, ClientMessage<String>, mk_c, un_c)
+                if cfg.prebuffered {
+                    let (wr, mut rdio) = if c2s { (a, b) } else { (b, a) };
+                    wr.tx_handle().borrow_mut().buf.extend(GREETING.iter());
+                    if cfg.seed & 1 == 0 {
+                        rdio.max_chunk = 1 << 16;
+                    }
+                    if c2s {
+                        let c = tarpc::serde_transport::new(Framed::new(wr, LengthDelimitedCodec::new()), tokio_serde::formats::Bincode::<Response<String>, ClientMessage<String>>::default());
+                        let s = lazy_rd!(rdio, tokio_serde::formats::Bincode::<ClientMessage<String>, Response<String>>::default());
+                        run_pair!(c, s, ClientMessage<String>, mk_c, un_c)
+                    } else {
+                        let s = tarpc::serde_transport::new(Framed::new(wr, LengthDelimitedCodec::new()), tokio_serde::formats::Bincode::<ClientMessage<String>, Response<String>>::default());
+                        let c = lazy_rd!(rdio, tokio_serde::formats::Bincode::<Response<String>, ClientMessage<String>>::default());
+                        run_pair!(s, c, Response<String>, mk_s, un_s)
+                    }
                 } else {
-                    run_pair!(s, c, Response<String>, mk_s, un_s)
+                    let c = tarpc::serde_transport::new(Framed::new(a, LengthDelimitedCodec::new()), tokio_serde::formats::Bincode::<Response<String>, ClientMessage<String>>::default());
+                    let s = tarpc::serde_transport::new(Framed::new(b, LengthDelimitedCodec::new()), tokio_serde::formats::Bincode::<ClientMessage<String>, Response<String>>::default());
+                    if c2s {
+                        run_pair!(c, s, ClientMessage<String>, mk_c, un_c)
+                    } else {
+                        run_pair!(s, c, Response<String>, mk_s, un_s)
+                    }
                 }
             }
         }
@@ -477,6 +534,9 @@ pub fn c15_case(cfg: &C15Cfg) -> Outcome {
     }
     if cfg.big {
         out.cell("C15.big-bodies");
+    }
+    if cfg.prebuffered {
+        out.cell(format!("C15.reader-framed-used-before.{}", if cfg.seed & 1 == 0 { "coalesced" } else { "fragmented" }));
     }
     out.trace = vec![format!("{name} {} n={} chunk={} pend={}% end={:?}: {} items read, first: {}", if cfg.c2s { "c2s" } else { "s2c" }, cfg.n, cfg.max_chunk, cfg.pending_pct, cfg.end, got.len(), got.first().map(|g| { let s = format!("{:?}", g.0); s.chars().take(120).collect::<String>() }).unwrap_or_default())];
     let mut h = FNV0;
